@@ -438,10 +438,12 @@ Definition result_of (o : option value) : result :=
 
 Definition outcome := (result * N)%type.
 
-(* the exit count of attestationdata/majority: strictMajority := requests/2 + 1, whatever the
-   threshold (PINNED TREE: when the threshold is higher the loops stop too early and the strategy
-   then reports "count lower than threshold") *)
-Definition att_exit (requests threshold : Z) : Z := (requests / 2 + 1)%Z.
+(* the exit count of attestationdata/majority:
+     strictMajority := requests/2 + 1; if s.threshold > strictMajority { strictMajority = s.threshold }
+   the loops stop early only once a value can neither be overtaken nor fall short of the threshold
+   (the pinned tree stopped at requests/2+1 whatever the threshold and then reported "count lower
+   than threshold" although enough nodes were about to report the value: fixed) *)
+Definition att_exit (requests threshold : Z) : Z := Z.max (requests / 2 + 1) threshold.
 
 Definition no_early {A} (_ : A) : bool := false.
 
